@@ -202,7 +202,7 @@ theorem assoc_unanswered_no_trace (st : State) (addr : String) (seq : BitVec 24)
 /-- an accepted establishment returns a UP F-SEID that from then on addresses the new session, which carries
     the control-plane SEID the peer chose (uses the table invariant of C04) -/
 theorem est_fseid_resolves (st : State) (wf : C04.TableWF st.lnode) (hroom : st.lnode.sess.length + 1 < 2 ^ 64)
-    (addr : String) (seq : BitVec 24) (r : EstReq) (env : Env) (c : Ctx) (n : String) (h : Nat) (cp : Seid)
+    (addr : String) (seq : BitVec 24) (r : EstReq) (env : Env) (c : Ctx) (n : NodeId) (h : Nat) (cp : Seid)
     (hn : r.nodeID = some n) (hno : st.nodeOf n = some h) (hcp : r.cpSeid = some cp) :
     let up := (st.lnode.newSess h cp).2.localID
     up ≠ 0 ∧ st.lnode.lookup up = none ∧
@@ -237,8 +237,8 @@ theorem est_fseid_resolves (st : State) (wf : C04.TableWF st.lnode) (hroom : st.
 /-! ### non-vacuity: a concrete exchange -/
 example :
     let st0 : State := {}
-    let (st1, o1) := step st0 (.request "p1" 1 (.assoc (some "4:p1"))) {}
-    let (st2, o2) := step st1 (.request "p1" 2 (.est { nodeID := some "4:p1", cpSeid := some 0x77#64 })) {}
+    let (st1, o1) := step st0 (.request "p1" 1 (.assoc (some (.v4 "p1")))) {}
+    let (st2, o2) := step st1 (.request "p1" 2 (.est { nodeID := some (.v4 "p1"), cpSeid := some 0x77#64 })) {}
     let (_, o3) := step st2 (.request "p2" 2 (.mod { seid := 5 })) {}
     o1.length = 1 ∧
     o2 = [Out.send "p1" { kind := .estRsp, seq := 2, seid := some 0x77#64, cause := some 1, nodeID := true, fseid := some 1#64 }] ∧
